@@ -332,6 +332,8 @@ def run(run):
     l5(run)
     # ---------------- L6 every parsed entry is kept, in order
     l6(run)
+    # ---------------- L7 the box of a line-like shape
+    chord_box_rule(run, "C16.L7")
     run.assume("the float comparisons of can_fit are exact on the values compared (no tolerance); what bounds() returns for each shape is C12's/C05's matter")
 
 
@@ -679,3 +681,26 @@ def thorough(run):
         else:
             run.ok("C16.L3", "grammar `%s` agrees with the statement's language on all %d strings over %r up to length %d" % (gname, n, sigma, maxlen), gfile)
 
+
+
+def chord_box_rule(run, rule):
+    """The box used for "inside" (L5) and for grouping is, for the two line-like shapes, spanned by the end points alone:
+    `Bounds for Line` and `Bounds for Arc` read `start` and `end` and nothing else (helpers inlined).  A box that also
+    depends on the radius or a computed centre reaches into cells the arc never touches: a tag or a neighbouring drawing
+    there would be claimed by the arc (shared with C10: far-away drawings must not influence each other)."""
+    prog = run.prog
+    for ty in ("line::Line", "arc::Arc"):
+        ps = [p for p in prog.bodies if re.search(r"<svgbob::[\w:]*%s as svgbob::[\w:]*Bounds>::bounds$" % re.escape(ty), p)]
+        if len(ps) != 1:
+            run.missing(rule, "Bounds for %s" % ty.split("::")[-1])
+            continue
+        used = set()
+        for r in Expr(prog, ps[0]).returns():
+            r = simplify(inline_calls(prog, r, depth=3))
+            mentions(r, lambda z: z[0] == "param" and z[1] == 1 and z[2] and used.add(z[2][0]) and False)
+            mentions(r, lambda z: z[0] == "param" and z[1] == 1 and not z[2] and used.add("<whole value>") and False)
+        if used == {"start", "end"}:
+            run.ok(rule, "%s::bounds is spanned by start and end only" % ty.split("::")[-1], where(prog.bodies[ps[0]]))
+        else:
+            run.bad(rule, "bounds-beyond-endpoints/%s" % ty.split("::")[-1], where(prog.bodies[ps[0]]),
+                    "%s::bounds depends on %s: the box can reach into cells the shape does not touch, so text or tags of another drawing that lie there are treated as enclosed by it" % (ty.split("::")[-1], sorted(used)))
